@@ -34,15 +34,15 @@ def run(tier, seed):
             dict(name="C17_filt_two", consts=F("two", 9 if q else 12), simulate=15 if q else 150, units=(1, 3000)),
             dict(name="C17_sock_imm", consts=S(False, 10 if q else 14, extras=("none", "w1")), simulate=25 if q else 250, units=(1, 512)),
             dict(name="C17_sock_def", consts=S(True, 10 if q else 14, extras=("none", "w1")), simulate=25 if q else 250, units=(1,)),
-            # one read event moves at most 4096 bytes, one write event at most 16384: unit = 4096
-            dict(name="C17_sock_caps", consts=S(False, 9 if q else 12, rdcap=1, wrcap=4, sizes=(1, 3, 5)),
+            # one read / write event moves at most 16384 bytes (max_single_read/write): unit = 4096
+            dict(name="C17_sock_caps", consts=S(False, 9 if q else 12, rdcap=4, wrcap=4, sizes=(1, 3, 5)),
                  simulate=15 if q else 150, units=(4096,)),
         ] + ([] if q else [
             dict(name="C17_sock_tcp", consts=S(False, 10, extras=("none", "w1")), simulate=60, units=(1, 512), tcp=1),
         ]),
         "known": [dict(name="C17_known_eof", key="pair-eof-before-data",
-                       consts=bc.consts("pair", {"write", "enable", "loop", "wmr", "flush", "finish"}, 5, sizes=(1, 3),
-                                        wms=((0, 2), (0, 1)), durs=(0,), allow=("pair_eof_before_data",)), simulate=40)],
+                       consts=bc.consts("pair", {"write", "wmr", "flush", "finish"}, 3, sizes=(3,), wms=((0, 1),), durs=(0,),
+                                        allow=("pair_eof_before_data",)))],
                 "need": ["write", "flush", "cb:r", "cb:e:f17", "shut", "free"],
         "rule": "TLC enumerates every history of the stated depth (pair_exh) or simulates random histories of the Bev "
                 "specification for pair, filter-over-pair (3 filter functions) and socket bufferevents; each is replayed on "
